@@ -87,7 +87,9 @@ var simpleKey = rapid.StringMatching(`[a-z][a-z0-9_]{0,7}`)
 
 var hostileStrings = []string{"", " ", "a b", "k\"q", "back\\slash", "line\nbreak", "cr\rlf\n", "tab\t", "nul\x00", "\x1f", "\x7f", "\xff", "\xc0\x80",
 	"\xed\xa0\x80", "\xf4\x90\x80\x80", "\xe2\x82", "é", "日本", "\U0001F600", " ", "�", "||", "=", "a=b||c", "{", "}", "[", "]", ",", ":", "\"", "\\",
-	"\\u0041", "\u2029", "\u2028\u2029", "para\u2029graph", "\u0085", "\ufeff", "msg", "level", "time", "fileLine", "tag", "ctxString", "<script>&", "null", "true", "1e5", "NaN"}
+	"\\u0041", "\u2029", "\u2028\u2029", "para\u2029graph", "\u0085", "\ufeff", "msg", "level", "time", "fileLine", "tag", "ctxString", "<script>&", "null", "true", "1e5", "NaN",
+	// text that is itself escaped text: what encoding/json writes for &, <, > and the separators, spelled out as six characters
+	"\\u0026", "\\u003c", "\\u003e", "a\\u0026b=1", "\\\\u003c", "\\u2028", "\\n", "\\\"", "\\/", "&", "<", ">", "a&b<c>d"}
 
 func (g *fgen) str(label string) string {
 	var s string
